@@ -77,6 +77,8 @@ class TrackingRequest:
     operation: Callable[[TrackingFlag], None]
     flag: TrackingFlag
     handled: asyncio.Event = field(default_factory=asyncio.Event)
+    retry: bool = False
+    """Request was created by the retry timer (re-send AddUser)"""
 
 
 @dataclass(slots=True)
@@ -558,7 +560,7 @@ class UserTrackingManager:
 
             previous_flags = tracked_user.flags
             request.operation(request.flag)
-            is_retry = request.flag == TrackingFlag(0)
+            is_retry = request.retry
 
             if tracked_user.flags == TrackingFlag(0):
                 # Ensure retry does not get scheduled again if we no longer
@@ -615,7 +617,7 @@ class UserTrackingManager:
 
     async def _request_retry(self, tracked_user: TrackedUser, timeout: float):
         await asyncio.sleep(timeout)
-        request = TrackingRequest(tracked_user.add_flag, TrackingFlag(0))
+        request = TrackingRequest(tracked_user.add_flag, TrackingFlag(0), retry=True)
         tracked_user.queue.put_nowait(request)
 
     async def _request_tracking(
